@@ -496,7 +496,7 @@ def iterfilldown(h):
             k = smt.fresh_int('k')
             cell = lambda r: z3.Select(src_row(S, r).arr, c)
             ctx.facts.append(LNM(2) == cell(1))
-            ctx.facts.append(z3.ForAll([k], z3.Implies(k >= 2, LNM(k + 1) == z3.If(smt.py_eq(cell(k), missing.t), LNM(k), cell(k)))))
+            ctx.facts.append(z3.ForAll([k], z3.Implies(k >= 3, LNM(k) == z3.If(smt.py_eq(cell(k - 1), missing.t), LNM(k - 1), cell(k - 1))), patterns=[LNM(k)]))
 
         def inv(ls):
             c = c_of(ls)
@@ -571,4 +571,105 @@ def iterannex(h):
             ctx.oblige('iterannex: header = the two headers side by side, once; nothing after the last row',
                        z3.And(pre.len == 1, o.len == ha.len + hb.len, res.out.len == 0,
                               z3.ForAll([q], z3.Implies(z3.And(0 <= q, q < o.len), z3.Select(o.arr, q) == z3.If(q < ha.len, z3.Select(ha.arr, q), z3.Select(hb.arr, q - ha.len))))))
+    h.explore(body)
+
+
+# ------------------------------------------------------------------------------------------------ fillright
+@vc('C12.iterfillright', functions=['petl.transform.fills.iterfillright'], props=['C12', 'C03', 'C02'],
+    assumptions=['nested rule: stateless over the rows, inductive invariant over the cells of one row (ghost function FR = the filled value of cell j)'])
+def iterfillright(h):
+    """fillright(t): in every row a missing cell takes the (already filled) value of its left neighbour unless that is missing too;
+    non-missing cells and the row length are unchanged; one row per row; the source row is not written (C03)."""
+    FQ = 'petl.transform.fills.iterfillright'
+
+    def body(ctx):
+        FR = z3.Function('FR', V, z3.IntSort(), V)
+        r_, j_ = z3.Const('r!fr', V), smt.fresh_int('j')
+        cellv = lambda r, j: z3.Select(smt.seq_arr(r), j)
+        box = {}
+
+        def axioms():
+            ctx.facts.append(z3.ForAll([r_], FR(r_, 0) == cellv(r_, 0)))
+            ctx.facts.append(z3.ForAll([r_, j_], z3.Implies(j_ >= 1, FR(r_, j_) == z3.If(
+                z3.And(smt.py_eq(cellv(r_, j_), missing.t), z3.Not(smt.py_eq(FR(r_, j_ - 1), missing.t))), FR(r_, j_ - 1), cellv(r_, j_))),
+                patterns=[FR(r_, j_)]))
+
+        def inner_inv(ls):
+            out = ls['outrow']
+            out = out if isinstance(out, Seq) else view_seq(out)
+            rowv = as_v(ls['row'])
+            i = ls.k.t
+            q = smt.fresh_int('q')
+            return z3.And(out.len == smt.seq_len(rowv), 0 <= i, i <= out.len,
+                          z3.ForAll([q], z3.Implies(z3.And(0 <= q, q < out.len), z3.Select(out.arr, q) == z3.If(q < i, FR(rowv, q), cellv(rowv, q)))))
+
+        def outer(ls, x, dout):
+            o = out_row(dout, 0)
+            rowv = as_v(x)
+            q = smt.fresh_int('q')
+            ctx.oblige('iterfillright: one output row per row, same length; cell j is the right-filled value FR(j): itself unless missing, else its (filled) left neighbour unless that is missing',
+                       z3.And(dout.len == 1, o.len == smt.seq_len(rowv), z3.ForAll([q], z3.Implies(z3.And(0 <= q, q < o.len), z3.Select(o.arr, q) == FR(rowv, q)))))
+        inner = LoopSpec(invariant=inner_inv, label='cells', types={'outrow': 'keep'})
+        inner.rebind = lambda ls: ls.interp.havoc_in_place(ls.env.lookup('outrow'), 'outrow')
+        it = h.interp(ctx, loops={(FQ, 0): LoopSpec(delta=outer, label='rows'), (FQ, 1): inner})
+        S = sym_table(ctx, 'S', nmin=1)
+        rows_are_sequences(ctx, S)
+        missing = sym_cell('missing')
+        axioms()
+        res = run_generator(it, closure_of(it, FQ), [S, missing])
+        if res.exc is not None:
+            ctx.oblige('iterfillright: never raises', z3.BoolVal(False), res.exc.origin or '')
+            return
+        if getattr(ctx, 'after_loop', None) == 'rows':
+            pre = ctx.pre_loop_out
+            ctx.oblige('iterfillright: the header first, once, unchanged; nothing after the last row',
+                       z3.And(pre.len == 1, _t(row_eq(out_row(pre, 0), src_row(S, 0))), res.out.len == 0))
+    h.explore(body)
+
+
+@vc('C12.iterfillleft', functions=['petl.transform.fills.iterfillleft'], props=['C12', 'C03', 'C02'],
+    assumptions=['as C12.iterfillright; reversed() through its contract (T6)'])
+def iterfillleft(h):
+    """fillleft(t): the mirror image: a missing cell takes the (already filled) value of its RIGHT neighbour unless that is missing."""
+    FQ = 'petl.transform.fills.iterfillleft'
+
+    def body(ctx):
+        FL = z3.Function('FL', V, z3.IntSort(), V)          # filled value of cell j, counted from the RIGHT end (0 = last cell)
+        r_, j_ = z3.Const('r!fl', V), smt.fresh_int('j')
+        rc = lambda r, j: z3.Select(smt.seq_arr(r), smt.seq_len(r) - 1 - j)       # cell j from the right
+        ctx_missing = {}
+
+        def inner_inv(ls):
+            out = ls['outrow']
+            out = out if isinstance(out, Seq) else view_seq(out)
+            rowv = as_v(ls['row'])
+            i = ls.k.t
+            q = smt.fresh_int('q')
+            return z3.And(out.len == smt.seq_len(rowv), 0 <= i, i <= out.len,
+                          z3.ForAll([q], z3.Implies(z3.And(0 <= q, q < out.len), z3.Select(out.arr, q) == z3.If(q < i, FL(rowv, q), rc(rowv, q)))))
+
+        def outer(ls, x, dout):
+            o = out_row(dout, 0)
+            rowv = as_v(x)
+            n = smt.seq_len(rowv)
+            q = smt.fresh_int('q')
+            ctx.oblige('iterfillleft: one output row per row, same length; cell j is the left-filled value: itself unless missing, else its (filled) right neighbour unless that is missing',
+                       z3.And(dout.len == 1, o.len == n, z3.ForAll([q], z3.Implies(z3.And(0 <= q, q < n), z3.Select(o.arr, q) == FL(rowv, n - 1 - q)))))
+        inner = LoopSpec(invariant=inner_inv, label='cells (from the right)', types={'outrow': 'keep'})
+        inner.rebind = lambda ls: ls.interp.havoc_in_place(ls.env.lookup('outrow'), 'outrow')
+        it = h.interp(ctx, loops={(FQ, 0): LoopSpec(delta=outer, label='rows'), (FQ, 1): inner})
+        S = sym_table(ctx, 'S', nmin=1)
+        rows_are_sequences(ctx, S)
+        missing = sym_cell('missing')
+        ctx.facts.append(z3.ForAll([r_], FL(r_, 0) == rc(r_, 0)))
+        ctx.facts.append(z3.ForAll([r_, j_], z3.Implies(j_ >= 1, FL(r_, j_) == z3.If(
+            z3.And(smt.py_eq(rc(r_, j_), missing.t), z3.Not(smt.py_eq(FL(r_, j_ - 1), missing.t))), FL(r_, j_ - 1), rc(r_, j_))), patterns=[FL(r_, j_)]))
+        res = run_generator(it, closure_of(it, FQ), [S, missing])
+        if res.exc is not None:
+            ctx.oblige('iterfillleft: never raises', z3.BoolVal(False), res.exc.origin or '')
+            return
+        if getattr(ctx, 'after_loop', None) == 'rows':
+            pre = ctx.pre_loop_out
+            ctx.oblige('iterfillleft: the header first, once, unchanged; nothing after the last row',
+                       z3.And(pre.len == 1, _t(row_eq(out_row(pre, 0), src_row(S, 0))), res.out.len == 0))
     h.explore(body)
